@@ -67,7 +67,7 @@ C13_B == [watch0 |-> [L1 |-> {"F1"}, L2 |-> {"F3"}], initMin |-> 1, initMax |-> 
 \* ---- C17: event notifications
 EgOps(eps, evs) == {[op |-> o, ep |-> p] : o \in {"eg_sub", "eg_unsub"}, p \in eps}
                    \cup {[op |-> "eg_set", ev |-> v, val |-> x] : v \in evs, x \in {7, 8}}
-C17_InputsX == EgOps({"e1", "e2"}, {1}) \cup {[op |-> "eg_notify", evs |-> q] : q \in {<<1>>, <<1, 2>>}}
+C17_InputsX == EgOps({"e1", "e2"}, {1}) \cup {[op |-> "eg_notify", evs |-> q, oneshot |-> o] : q \in {<<1>>, <<1, 2>>}, o \in BOOLEAN}
 C17_InputsC == EgOps({"e1", "e2"}, {1}) \cup {[op |-> "eg_create"]}
 C17_X == [maxId |-> 65535, events |-> <<1, 2>>, values0 |-> (1 :> 7 @@ 2 :> 9), egInterval |-> 0, peers |-> Peers2] @@ CfgDefault
 C17_C == [events |-> <<1>>, values0 |-> (1 :> 7), egInterval |-> 2, peers |-> Peers2] @@ CfgDefault
